@@ -47,6 +47,10 @@ Definition bufs_ok (evs : list event) : bool :=
 Definition no_enomem (tr : list (event * result)) : bool :=
   forallb (fun eo => match snd eo with RBuf _ RONoMem => false | _ => true end) tr.
 
+(* the schedule does not (re-)open this id *)
+Definition no_open_of (id : N) (evs : list event) : bool :=
+  forallb (fun e => match e with EvOpen i => negb (i =? id) | _ => true end) evs.
+
 Fixpoint only_closes (evs : list event) : bool :=
   match evs with [] => true | EvClose :: r => only_closes r | _ :: _ => false end.
 
